@@ -9,15 +9,17 @@ Design level : specs/ClosuresIdeal.tla is the property as a machine (create/drop
                b_callback after the closure was allocated: GC_New out of memory, unsupported signature,
                ffi_prep_closure failure, bad user_data); TLC explores every history of 3 callbacks x 2 signatures over blocks of
                1, 2 and 3 slots (thorough: 4 callbacks) and checks the refinement, free /\\ live = {},
-               no duplicates on the free list, LIFO reuse; three broken variants must be rejected.
+               no duplicates on the free list, every block inside the bytes mmap()ed for its chunk, LIFO
+               reuse; five broken variants must be rejected.
 Binding      : sessions (one fresh process each, the allocator is process-wide) of create / failing
                create (variadic signature; allocation failures injected into ffi.callback() with
                _testcapi.set_nomemory) / drop / call operations on real ffi.callback() objects with five signatures,
                called through the cdata and from a C caller compiled at run time:
                spec -> code: walks covering the transitions of the explored graph, concatenated;
                code -> spec: random histories hovering around the real block boundaries (73, 219, 438,
-               730, ... closures) and bursts with thousands alive; sessions with reference cycles
-               freed by gc.collect().
+               730, ... closures), bursts with thousands alive, one burst with 20 000 (thorough: 25 000
+               and 40 000) alive that reaches more_core's 14th..17th chunk; sessions with reference
+               cycles freed by gc.collect().
                TLC validates every session against the ideal (verdicts) and runs the implementation
                model at the real sizes (taken from gcc) over the same operations; the predicted
                addresses must equal the real ones up to one page-aligned base per mmap()ed block
